@@ -359,6 +359,8 @@ impl fmt::Display for FunctionDefinition {
         // would be parsed as a command substitution.
         let separator = match self.name.units.last() {
             Some(Unquoted(Literal('$'))) => " ",
+            // A tilde expansion takes any following unquoted literals in its name.
+            Some(Tilde { name, .. }) if name.ends_with('$') => " ",
             _ => "",
         };
         write!(f, "{}{}() {}", self.name, separator, self.body)
